@@ -4,7 +4,7 @@ ENTRY = dict(
         title="Schedule edits touch exactly the addressed slots; commit sends the edited week",
         design_ref="DESIGN.md section 6 / C18",
         prop_modules=["C18", "C18Heap", "C18Unaligned", "TieSchedule", "C18Time", "TieStructSchedules"],
-        technique="Lean 4 theorems over all days / bitmaps / edit sequences (model of set_state, the bitmap codec, the device's receive-edit-commit pipeline) + translator tables + correspondence with ScheduleDay.set_state and with a real EcoMAX device (handle_frame, Schedule objects, Schedule.commit)",
+        technique="Lean 4 theorems over all days / bitmaps / edit sequences (model of set_state, the bitmap codec, the device's receive-edit-commit pipeline) + translator tables + correspondence with ScheduleDay.set_state and with a real EcoMAX device (handle_frame, Schedule objects, Schedule.commit) + code tie: the schedules decoder / encoder translated from their source text on each run (Props/TieSchedule, TieStructSchedules) + an exact specification of strptime %H:%M validated exhaustively against CPython (Props/C18Time)",
         level_text=(
             "Proof: `C18.set_exact` (a call succeeds iff state valid, times parse, end after start; the day afterwards differs exactly on slots lo..hi, "
             "all set to the state), `set_length`, `set_error_inert`, `set_error_iff`, `time_range_aligned` (aligned times address the statement's slots, "
